@@ -1,6 +1,7 @@
 package stx
 
 import (
+	"time"
 	"bytes"
 	"context"
 	"fmt"
@@ -275,7 +276,7 @@ func (r *Runner) launchPut(id, obj, ver int, chunking, fault string) (*pendingOp
 }
 
 // consumeMode consumes a buffer returned by the store in one of the ways clients do: "s" ToByteSlice, "r" ToReader
-// read to the end, "c" ToChunkReader in small chunks, "w" IntoWriter, "a" ReadAt of the whole object, "q" ReadAt of a middle range; "p" ToReader closed after
+// read to the end, "c" ToChunkReader in small chunks, "w" IntoWriter, "a" ReadAt of the whole object, "q" ReadAt of a middle range; "o" ToChunkReader at an offset beyond the end, "p" ToReader closed after
 // one byte, "d" Discard and "x" ToByteSlice with a limit below the size abandon the data (kind "abandoned": the outcome of the read is not observed).
 func consumeMode(b buffer.Buffer, mode string, size int) (string, []byte) {
 	var data []byte
@@ -328,6 +329,13 @@ func consumeMode(b buffer.Buffer, mode string, size int) (string, []byte) {
 		if err == nil || (err == io.EOF && n == ln) {
 			return fmt.Sprintf("partial %d", off), data[:n]
 		}
+	case "o":
+		// a chunk reader opened at an offset beyond the end of the object (a client's read_offset is passed on as is):
+		// the call fails, the buffer must still be released
+		cr := b.ToChunkReader(int64(size)+1, 3)
+		cr.Read()
+		cr.Close()
+		return "abandoned", nil
 	case "p":
 		rd := b.ToReader()
 		var one [1]byte
@@ -335,6 +343,11 @@ func consumeMode(b buffer.Buffer, mode string, size int) (string, []byte) {
 		rd.Close()
 		return "abandoned", nil
 	case "d":
+		b.Discard()
+		return "abandoned", nil
+	case "D":
+		// a discard that arrives late: the other consumer of the stream (the copy of a refresh) has registered first
+		time.Sleep(3 * time.Millisecond)
 		b.Discard()
 		return "abandoned", nil
 	case "x":
